@@ -186,7 +186,20 @@ def size_check_obligations(ctx, clause_prefix='D1'):
                 bypass.append(f'{f.loc(n)} {f.qualname}')
         if f.cls is not None and f.cls.name in ('Array', 'RaggedArray') and \
                 f.decorators & {'classmethod', 'staticmethod'}:
-            bypass.append(f'{f.loc()} {f.qualname} ({sorted(f.decorators)})')
+            # an alternative constructor hands out an instance it made without __init__: it mentions the class
+            # (cls / the class name / object) in a call or sets __class__/__dict__; a static helper that only computes
+            # on its arguments is not one
+            makes = False
+            for n in own_nodes(f.node):
+                if isinstance(n, ast.Call):
+                    fn_ = dotted(n.func) or ''
+                    if fn_ in ('cls', f.cls.name, 'object.__new__', 'copy.copy', 'copy.deepcopy', 'super') or \
+                            fn_.endswith('.__new__'):
+                        makes = True
+                if isinstance(n, ast.Attribute) and n.attr in ('__class__', '__dict__'):
+                    makes = True
+            if makes:
+                bypass.append(f'{f.loc()} {f.qualname} ({sorted(f.decorators)})')
     ctx.decide(not bypass, 'R-OWN', clause_prefix, init, None, 'no-constructor-bypass',
                'no alternative constructor bypasses Array.__init__', detail=str(bypass))
     # RaggedArray builds both sub-arrays through Array(...)
